@@ -8,8 +8,8 @@ package main
 import (
 	"fmt"
 	"hash/fnv"
-	"os"
 	"math"
+	"os"
 	"sort"
 	"strconv"
 	"strings"
@@ -69,22 +69,23 @@ type Path struct {
 	apps   []hashApp
 	steps  int
 	// results
-	covers    map[string]bool
-	observes  []obsVal
-	oblig     int // assertions evaluated
-	dischargd int
-	symForks  int // events decided by the solver on this path (new or replayed, non-forced)
-	known     map[string]bool
-	flags     map[string]bool
-	mapOrder  bool
-	ranges    map[string][2]int64
-	finite    map[int]bool // term ids of BV64 vars known to be finite floats
-	merge     *mergeCtx
-	cli       *cliState
-	violTerm  *Term // the negated assertion that was found satisfiable
-	preEqOf   map[[2]int]*Term // (hash code, hash code) -> equality of their preimages (the iff axiom's right side)
-	rep       map[*Term]*Term // equality substitution: variable -> representative (variable or constant)
-	canonMemo map[*Term]*Term
+	covers     map[string]bool
+	observes   []obsVal
+	oblig      int // assertions evaluated
+	dischargd  int
+	symForks   int // events decided by the solver on this path (new or replayed, non-forced)
+	known      map[string]bool
+	flags      map[string]bool
+	mapOrder   bool
+	mapReverse bool // every map range runs in reverse insertion order (no forking)
+	ranges     map[string][2]int64
+	finite     map[int]bool // term ids of BV64 vars known to be finite floats
+	merge      *mergeCtx
+	cli        *cliState
+	violTerm   *Term            // the negated assertion that was found satisfiable
+	preEqOf    map[[2]int]*Term // (hash code, hash code) -> equality of their preimages (the iff axiom's right side)
+	rep        map[*Term]*Term  // equality substitution: variable -> representative (variable or constant)
+	canonMemo  map[*Term]*Term
 }
 
 // mergeCtx: a pure callee is run once per outcome of its single symbolic branch and
